@@ -35,7 +35,7 @@ class C15(Check):
         "HiGHS / sympy.solve are oracles (certificate-checked exact simplex; exact Gauss-Jordan)",
     ]
     assumptions = ["floats denote exact rationals; numeric reading of the property"]
-    min_branches = {"ok": 150, "overlap": 30, "unconnected": 15, "merge": 40, "near-duplicate": 15}
+    min_branches = {"ok": 150, "overlap": 30, "unconnected": 15, "merge": 40, "near-duplicate": 15, "twin": 20}
 
     def generate(self, rng, n, tier):
         out = []
@@ -75,6 +75,24 @@ class C15(Check):
                 out.append({"op": "merge", "c1": c1, "c2": c2, "w": w})
                 continue
             out.append({"op": "compose", "c1": c1, "c2": c2, "keep": keep, "simplify": rng.random() < 0.6, "order": rand_order(rng), "w": w})
+        # twins: two consecutive problems that PRINT alike (they differ beyond the fourth significant digit).  In the first a
+        # guarantee of one viewpoint is redundant (margin 1e-3) under the other's assumption and guarantee; in the second it is not.
+        # Consecutive cases run in the same worker process, so a result carried over from the first problem shows in the second.
+        for _ in range(max(12, n // 25)):
+            c = float(rng.choice([2, 3, 4]))
+            k = float(rng.randint(0, 4))
+            sg = rng.choice([1.0, -1.0])
+
+            def pair(cc):
+                p1 = {"ins": ["i", "j"], "outs": ["o"], "a": [{"c": {"i": sg, "j": -sg * cc}, "k": 0.0}], "g": [{"c": {"o": sg, "i": -sg}, "k": k}]}
+                p2 = {"ins": ["i", "j"], "outs": ["o"], "a": [], "g": [{"c": {"o": sg, "j": -sg * c}, "k": k + 1e-3}]}
+                return p1, p2
+            for cc in (c, c * (1 + 2e-4)):
+                p1, p2 = pair(cc)
+                if rng.random() < 0.5:
+                    out.append({"op": "merge", "c1": p1, "c2": p2, "w": "twin"})
+                else:
+                    out.append({"op": "merge", "c1": p2, "c2": p1, "w": "twin"})
         return out
 
     def run_impl(self, case):
@@ -120,6 +138,8 @@ class C15(Check):
             b.append("overlap")
         if any(t.get("near") for t in c2["g"]):
             b.append("near-duplicate")
+        if case.get("w") == "twin":
+            b.append("twin")
         if case["op"] == "merge":
             b.append("merge")
         elif not ((set(c1["outs"]) & set(c2["ins"])) | (set(c2["outs"]) & set(c1["ins"]))):
